@@ -59,6 +59,8 @@ R, I, B_ = z3.RealSort(), z3.IntSort(), z3.BoolSort()
 KEYS = ('p', 'w', 'V', 'VI')                                          # the extra cdist arguments named by the property / docstring
 REQUIRED = {'wminkowski': 'w', 'seuclidean': 'V', 'mahalanobis': 'VI'}  # metric -> argument that must be given (docstring / error texts)
 AD = 'elfi/model/elfi_model.py::AdaptiveDistance.'
+METRIC_NAMES = ('euclidean', 'sqeuclidean', 'minkowski', 'wminkowski', 'seuclidean', 'mahalanobis', 'cityblock', 'chebyshev', 'cosine', 'canberra',
+                'hamming', 'no-such-metric')
 
 
 def sample_cover(hints):
@@ -156,7 +158,92 @@ class MetricName(Sym):
         r = self.__eq__(o)
         return (not r) if isinstance(r, bool) else ~r
 
-    __hash__ = Sym.__hash__
+    def __hash__(self):
+        # a plain dict / set lookup with a symbolic string cannot fork: fail closed (tables of the analysed module are ForkDicts, see below)
+        raise OutOfSubset('hash of a symbolic metric name (lookup in a container that is not a literal module-level table)')
+
+    def __repr__(self):
+        return '<metric name>'
+
+
+class ForkDict(dict):
+    """a literal module-level table with string keys, as seen by the analysed code: lookups with a SYMBOLIC string fork over the keys
+    (key == k1 ? .. : absent); lookups with concrete keys are python's"""
+
+    def _find(self, key):
+        for k in list(dict.keys(self)):
+            if isinstance(k, str) and bool(key == k):
+                return True, k
+        return False, None
+
+    def get(self, key, default=None):
+        if isinstance(key, MetricName):
+            hit, k = self._find(key)
+            return dict.__getitem__(self, k) if hit else default
+        return dict.get(self, key, default)
+
+    def __getitem__(self, key):
+        if isinstance(key, MetricName):
+            hit, k = self._find(key)
+            if not hit:
+                raise program_exception(KeyError('<metric name>'))
+            return dict.__getitem__(self, k)
+        return dict.__getitem__(self, key)
+
+    def __contains__(self, key):
+        if isinstance(key, MetricName):
+            return self._find(key)[0]
+        return dict.__contains__(self, key)
+
+
+def module_level_names(vc, target, have):
+    """Names that the analysed function (and, transitively, the helpers found this way) loads and that are defined at the top level of the SAME
+    module of the tree under analysis, but are not supplied by the contract: a module-level `def` is the REAL function (pyvc.engine.inline), a
+    module-level assignment of a python LITERAL is that literal (dicts with string keys become ForkDicts).  Classes, imports and non-literal
+    values are NOT resolved: the run then ends in a NameError = out of subset (undecided), never in a guess."""
+    import ast
+    from pyvc import instrument
+    path = target.split('::')[0]
+    loc = instrument.locate(target, vc.repo)
+    src, tree = instrument._parse(path, vc.repo)
+    top = {}
+    for n in tree.body:
+        if isinstance(n, ast.FunctionDef):
+            top[n.name] = n
+        elif isinstance(n, ast.Assign) and len(n.targets) == 1 and isinstance(n.targets[0], ast.Name):
+            top[n.targets[0].id] = n
+    out, seen, work = {}, set(), [loc.node]
+    while work:
+        fn = work.pop()
+        for x in ast.walk(fn):
+            if not (isinstance(x, ast.Name) and isinstance(x.ctx, ast.Load)):
+                continue
+            nm = x.id
+            if nm in seen or nm in have or nm in vc.g or nm in vc.g['__builtins__'] or nm not in top:
+                continue
+            seen.add(nm)
+            d = top[nm]
+            if isinstance(d, ast.FunctionDef):
+                if d is loc.node:
+                    continue
+                out[nm] = inline(vc, '%s::%s' % (path, nm))
+                work.append(d)
+            else:
+                try:
+                    v = ast.literal_eval(d.value)
+                except (ValueError, SyntaxError, TypeError):
+                    continue                                   # not a literal: left unresolved (fail closed)
+                out[nm] = ForkDict(v) if isinstance(v, dict) and all(isinstance(k, str) for k in v) else v
+    return out
+
+
+def _resolving_env(env0):
+    def env(self, vc):
+        e = dict(env0(self, vc))
+        e.update(module_level_names(vc, self.target, e))
+        return e
+    env._c12_wrapped = True
+    return env
 
 
 def is_partial(f, func, keys):
@@ -493,7 +580,7 @@ class DistanceInit(Contract):
     fin = 2
 
     def __init__(self, kind, nsum):
-        self.kind, self.nsum = kind, nsum          # kind: 'str' (any metric name) | 'callable'
+        self.kind, self.nsum = kind, nsum          # kind: 'str' (any metric name, symbolic) | 'names' (the concrete names of METRIC_NAMES) | 'callable'
         self.label = '%s-%d-summaries' % (kind, nsum)
         if nsum == 0:
             self.cover = False                     # raise-only case
@@ -514,12 +601,16 @@ class DistanceInit(Contract):
         if self.kind == 'str':
             s.distance = MetricName(z3.String('metric'))
             s.mt = s.distance.t
+        elif self.kind == 'names':
+            # CONCRETE python strings: decided whatever the code does with the name (local dict / set lookups, str methods ...)
+            s.distance = vc.fork_values('metric', list(METRIC_NAMES))
+            s.mt = z3.StringVal(s.distance)
         else:
             s.distance = lambda X, Y: None
         return s, (s.self, s.distance) + s.summaries, dict(s.kwargs)
 
     def _missing(self, s):
-        if self.kind != 'str':
+        if self.kind == 'callable':
             return z3.BoolVal(False)
         return z3.Or([z3.And(s.mt == z3.StringVal(mname), z3.BoolVal(k not in s.present)) for mname, k in sorted(REQUIRED.items())])
 
@@ -538,7 +629,7 @@ class DistanceInit(Contract):
         dist_fn = disc.args[0] if ok_disc else None
         out = [('the node operation is distance_as_discrepancy bound to the distance function', z3.BoolVal(ok_disc)),
                ('the summaries are the parents, in order', z3.BoolVal(tuple(a[1:]) == s.summaries))]
-        if self.kind == 'str':
+        if self.kind in ('str', 'names'):
             moved = {k for k in KEYS if k in s.present}
             ok = is_partial(dist_fn, CDIST, {'metric'} | moved) and dist_fn.keywords['metric'] is s.distance and \
                 all(dist_fn.keywords[k] is s.values[k] for k in moved)
@@ -991,7 +1082,9 @@ class RejectionInit(Contract):
                              methods=dict(init_adaptation_round=lambda self_: s.events.append('init_adaptation_round')),
                              bases=(_ADClass,) if self.adaptive else ())
         s.model = make_object('ModelStub', attrs=dict(parameter_names=['t1', 't2']),
-                              methods={'__getitem__': lambda self_, k: s.node if k == 'd' else (_ for _ in ()).throw(KeyError(k))})
+                              methods={'__getitem__': lambda self_, k: s.node if k == 'd' else (_ for _ in ()).throw(KeyError(k)),
+                                       # GraphicalModel.get_parents (documented: list of POSITIONAL parent names), for bodies that ask the model instead of the node
+                                       'get_parents': lambda self_, k: list(s.parent_names) if k == 'd' else (_ for _ in ()).throw(KeyError(k))})
         choices = [None] + _ordered_subsets(s.parent_names)
         choices += [c[:1] + ['x'] + c[1:] for c in choices[1:] if len(c) <= 2]
         s.user = vc.fork_values('output_names', choices)
@@ -1084,19 +1177,24 @@ class MergeBatchAdaptive(Contract):
 CONTRACTS = [DistanceAsDiscrepancy('s'), DistanceAsDiscrepancy('v'), DistanceAsDiscrepancy('sv'), DistanceAsDiscrepancy('vs', extra=('p', 'w')),
              DistanceAsDiscrepancy('vsv', extra=('V',)), DistanceAsDiscrepancy('ss', extra=('VI',)),
              DistanceAsDiscrepancy('ss', 'fn1'), DistanceAsDiscrepancy('sv', 'fn21'), DistanceAsDiscrepancy('sv', 'fn22'),
-             DistanceInit('str', 2), DistanceInit('str', 0), DistanceInit('callable', 1),
+             DistanceInit('str', 2), DistanceInit('names', 1), DistanceInit('str', 0), DistanceInit('callable', 1),
              AdaptiveInit(2), AdaptiveInit(0), InitState(), InitRound(),
              AddData(True, 's'), AddData(False, 's'), AddData(True, 'sv'), AddData(False, 'sv'), AddData(False, 'vsv'),
              UpdateDistance(1), UpdateDistance(2), NestedDistance(1), NestedDistance(2), NestedDistance(3),
              RejectionInit(3), RejectionInit(2), RejectionInit(2, adaptive=False), MergeBatchAdaptive(True), MergeBatchAdaptive(False),
              LemmaSumExt(), LemmaShiftLin(), LemmaShiftMom(), LemmaShiftMom0(), LemmaWeightedScaled(), LemmaWelford(), LemmaVariance()]
 
+for _cls in {type(_c) for _c in CONTRACTS}:
+    if not _cls.target.startswith('@') and not getattr(_cls.env, '_c12_wrapped', False):
+        _cls.env = _resolving_env(_cls.env)
+
 TRUSTED_BASE = ['pyvc engine: proxies, path forking, numpy spec table (column_stack / atleast_2d / concatenate / reshape layouts, sum(axis=0) = column-wise mathematical finite sum, elementwise broadcasting)',
                 'scipy.spatial.distance.cdist(XA, XB, metric, **kw)[i, j] = metric_kw(XA[i], XB[j]): pure, row-wise; shape (nA, nB); ValueError on unequal widths; '
                 'closed form sqrt(sum_t w_t (a_t - b_t)^2) for metric=euclidean with optional w >= 0 (sanity-tested each run against the vector functions of scipy)',
                 'functools.partial: keyword binding, flattening of nested partials (sanity-tested)',
                 'np.sqrt is the real square root (uninterpreted function; only congruence is used)',
-                'Discrepancy.__init__/NodeReference.__init__ (outside this property) store their arguments; modelled as a recording stub']
+                'Discrepancy.__init__/NodeReference.__init__ (outside this property) store their arguments; modelled as a recording stub',
+                'module-level helpers / literal tables of the analysed module that an analysed body refers to are taken from the tree (real helper body via pyvc.engine.inline, ast.literal_eval of the table; string-keyed tables fork on a symbolic metric name); anything else unresolved = undecided']
 ASSUMPTIONS = ['A-REAL: floats are reals (the Welford update exists because they are not; only its real-number meaning is proved)',
                'A-INT: integers are mathematical',
                'summary outputs are (B,) or (B, w) arrays with a common batch size B >= 1; observed summaries have the matching width (shape (1,), 0-d, (1, w) or (w,))',
